@@ -823,6 +823,11 @@ impl Real {
             ($f:ident, $want:expr) => {{
                 let got = take_string($f(p));
                 let want: Option<Option<String>> = $want;
+                // text with an interior NUL has no C string: the documented failure (null + message)
+                let want = match want {
+                    Some(Some(t)) if t.contains('\0') => None,
+                    w => w,
+                };
                 match want {
                     Some(w) => {
                         if got != w {
